@@ -330,4 +330,67 @@ example : runMon { stream := [1,2,3,4,5] } [(.read 2 false, .read .ok 2 [1,2] tr
     (.read 4 true, .read .eof 3 [3,4,5] true)] = some { stream := [], wire := [9,8,7] } := by decide
 end Stream
 
+/-! ### Would-blocks and deferrals do not change what an operation reports
+
+Where the kernel says "would block" — before the first attempt (the operation was deferred to the poller, e.g. at the dispatch
+limit, C14), between two partial transfers, or repeatedly — is irrelevant to the result class, the count, the bytes and the state
+of the stream: the operation completes with the result it would have had without them. -/
+section Blocks
+
+def ROut.core (o : ROut) : Res × Nat × List UInt8 × List UInt8 := (o.res, o.n, o.buf, o.stream)
+def WOut.core (o : WOut) : Res × Nat × List UInt8 := (o.res, o.n, o.wire)
+
+def noBlocks (sched : List KRes) : List KRes := sched.filter (fun k => k != .block)
+
+theorem C02_read_would_block_irrelevant (len : Nat) (all : Bool) : ∀ (sched : List KRes) (soFar : Nat) (buf stream : List UInt8),
+    (readOp len all soFar buf stream (noBlocks sched)).map ROut.core = (readOp len all soFar buf stream sched).map ROut.core
+  | [], _, _, _ => by simp [noBlocks, readOp]
+  | .block :: rest, soFar, buf, stream => by
+    have ih := C02_read_would_block_irrelevant len all rest soFar buf stream
+    simpa [noBlocks, readOp] using ih
+  | .eof :: rest, _, _, _ => by simp [noBlocks, readOp, ROut.core]
+  | .fail :: rest, _, _, _ => by simp [noBlocks, readOp, ROut.core]
+  | .move k :: rest, soFar, buf, stream => by
+    have h1 : noBlocks (.move k :: rest) = .move k :: noBlocks rest := by simp [noBlocks]
+    rw [h1]
+    simp only [readOp]
+    split
+    · exact C02_read_would_block_irrelevant len all rest soFar buf stream
+    · split
+      · exact C02_read_would_block_irrelevant len all rest _ _ _
+      · simp [ROut.core]
+
+theorem C02_write_would_block_irrelevant (b : List UInt8) (all : Bool) : ∀ (sched : List KRes) (soFar : Nat) (wire : List UInt8),
+    (writeOp b all soFar wire (noBlocks sched)).map WOut.core = (writeOp b all soFar wire sched).map WOut.core
+  | [], _, _ => by simp [noBlocks, writeOp]
+  | .block :: rest, soFar, wire => by
+    have ih := C02_write_would_block_irrelevant b all rest soFar wire
+    simpa [noBlocks, writeOp] using ih
+  | .eof :: rest, _, _ => by simp [noBlocks, writeOp, WOut.core]
+  | .fail :: rest, _, _ => by simp [noBlocks, writeOp, WOut.core]
+  | .move k :: rest, soFar, wire => by
+    have h1 : noBlocks (.move k :: rest) = .move k :: noBlocks rest := by simp [noBlocks]
+    rw [h1]
+    simp only [writeOp]
+    split
+    · exact C02_write_would_block_irrelevant b all rest soFar wire
+    · split
+      · exact C02_write_would_block_irrelevant b all rest _ _
+      · simp [WOut.core]
+
+/-- **C14 / C02 (deferred = inline).** An operation whose first attempt is left to the poller (a would-block in front of the
+schedule: issued at the dispatch limit, or the descriptor was not ready) completes with exactly the result of the same
+operation tried at once. -/
+theorem C14_deferred_read_same_result (len : Nat) (all : Bool) (sched : List KRes) (stream : List UInt8) :
+    (readOp len all 0 [] stream (.block :: sched)).map ROut.core = (readOp len all 0 [] stream sched).map ROut.core := by
+  simp [readOp]
+
+theorem C14_deferred_write_same_result (b : List UInt8) (all : Bool) (sched : List KRes) :
+    (writeOp b all 0 [] (.block :: sched)).map WOut.core = (writeOp b all 0 [] sched).map WOut.core := by
+  simp [writeOp]
+
+example : (readOp 8 true 0 [] [1,2,3,4,5,6,7,8,9] [.block, .move 3, .block, .block, .move 9]).map ROut.core =
+    (readOp 8 true 0 [] [1,2,3,4,5,6,7,8,9] [.move 3, .move 9]).map ROut.core := by decide
+end Blocks
+
 end Sonic.Props.C02
